@@ -29,6 +29,15 @@ class CD(copyable.Copyable, copyable.RemoteCopy):
 
 COPYABLES = (CA, CB, CC, CD)
 
+# unusual but legal attribute names of a Copyable's state dictionary (any str that has a UTF-8 form): the empty string, names
+# that are falsy / look like numbers or blanks once converted, names equal to opentype strings, to words of the negotiated
+# vocabulary table (sent as VOCAB tokens), to a registered copytype, to Python-internal names, long names (around the one-byte
+# length header boundary and well beyond the longest opentype), non-ASCII / NUL-holding names
+ATTR_NAMES = ["", "0", " ", "None", "False", "\x00", "\n", "list", "copyable", "reference", "set-vocab", "close", "abort", "tuple",
+              "dict", "call", "answer", "arguments", "attributedict", "unicode", "my-reference", "verif.c01.A", "verif.c01.C14",
+              "__dict__", "__class__", "copytype", "é", "€uro", "\U0001f600", "a\x00b", "\u0080", "x" * 127, "x" * 128, "n" * 300,
+              "k" * 1000, "attr name with blanks", "-1", "0.0"]
+
 
 def _name_of_length(n):
     base = "verif.c01.basket.with.a.long.registered.name.x"
@@ -127,7 +136,7 @@ def copy_state(x):
         KEEP.extend(st.values())
         return c.getTypeToCopy(), list(st.items())
     if isinstance(x, copyable.RemoteCopy):
-        return x.copytype, list(x.__dict__.items())
+        return type(x).copytype, list(x.__dict__.items())      # the class's (an ATTRIBUTE named "copytype" is state)
     return None
 
 
@@ -218,6 +227,10 @@ def gen_graph(rng, nnodes, tier_k=64):
     """a pool of containers built bottom-up, then forward edges from lists / dict values / sets into later nodes
     (every cycle therefore passes through a list, dict or set); returns the root object"""
     nodes = []
+    # second stream for the attribute names of pass-by-copy instances (derived from the state of the main one without drawing
+    # from it: graphs keep their shape, a third of the attribute names become unusual-but-legal ones)
+    import random as _random
+    sub = _random.Random(hash(rng.getstate()[1][:8]) ^ nnodes)
 
     def pick(hashable=False, p_node=0.5):
         if nodes and rng.random() < p_node:
@@ -256,7 +269,10 @@ def gen_graph(rng, nnodes, tier_k=64):
         else:
             c = rng.choice(COPYABLES)()
             for j in range(n):
-                setattr(c, rng.choice(["x", "y", "z", "w", "attr_%d" % j]), pick())
+                nm = rng.choice(["x", "y", "z", "w", "attr_%d" % j])
+                if sub.random() < 0.35:
+                    nm = sub.choice(ATTR_NAMES[:5] if sub.random() < 0.4 else ATTR_NAMES)
+                c.__dict__[nm] = pick()
             nodes.append(c)
     # forward edges (cycles, aliasing)
     for i, nd in enumerate(nodes):
@@ -861,7 +877,7 @@ def match_term(t, obj, env, n, path="root"):
         return n + 1
     kind, name, kids = t[1], t[2], t[3]
     if kind == "copy":
-        if not isinstance(obj, copyable.RemoteCopy) or (obj.copytype or "").encode("ascii") != name:
+        if not isinstance(obj, copyable.RemoteCopy) or (type(obj).copytype or "").encode("ascii") != name:
             raise Mismatch("%s: expected RemoteCopy %r, got %s" % (path, name, type(obj).__name__))
     elif type(obj) is not KIND_TYPE[kind]:
         raise Mismatch("%s: expected %s, got %s" % (path, kind, type(obj).__name__))
@@ -965,7 +981,7 @@ def children_of(x):
 
 def same_class(a, b):
     if is_copy(a):
-        return isinstance(b, copyable.RemoteCopy) and copy_state(a)[0] == b.copytype
+        return isinstance(b, copyable.RemoteCopy) and copy_state(a)[0] == type(b).copytype
     return type(a) is type(b)
 
 
